@@ -17,7 +17,7 @@ NOTES = ["proved: run_no_fault, run_preserves_reachable, run_leaves_unmanaged, r
 
 def run(ctx, log):
     # the same small programs at every size around the widths the implementation encodes things in (closed-form results)
-    progcheck.run_scale(ctx, log, ['rtnest', 'objects', 'cyclic', 'alias', 'literal', 'temporaries', 'csc'])
+    progcheck.run_scale(ctx, log, ['rtnest', 'objects', 'cyclic', 'alias', 'literal', 'temporaries', 'csc', 'collections'])
     progcheck.run_scale_wrapped(ctx, log, ['alias', 'cyclic', 'literal', 'objects', 'temporaries', 'rtnest', 'csc', 'constants', 'locals'])
     rng = ctx.rng
     seqs = [gccheck.gen_sequence(rng) for _ in range(2000 if ctx.quick else 50000)]
